@@ -100,6 +100,8 @@ def run_history(case):
         conn = _Conn()
         h = O.DBusObjectHandler(conn)
         model = {}     # path -> (variant, stamp, path)
+        live = {}      # path -> (instance, variant, stamp) currently exported
+        parked = {}    # path -> (instance, variant, stamp) last unexported from that path
         serial = 10
         paths = case['pool'] + NEVER
         for si, op in enumerate(case['ops']):
@@ -108,14 +110,20 @@ def run_history(case):
             del conn.sent[:]
             if kind == 'export':
                 variant = op[2] % 2
-                obj = _new_obj(classes, path, variant, si)
+                stamp = si
+                if len(op) > 3 and op[3] and path in parked and path not in model:
+                    # the very instance that was exported and unexported before goes back
+                    obj, variant, stamp = parked.pop(path)
+                else:
+                    obj = _new_obj(classes, path, variant, si)
+                live[path] = (obj, variant, stamp)
                 del conn.sent[:]
                 try:
                     h.exportObject(obj)
                 except Exception as e:
                     out.append(Disc(exc_key(e, 'export.raises'), exc_detail(e)))
                     break
-                model[path] = (variant, si, path)
+                model[path] = (variant, stamp, path)
                 sigs = list(conn.sent)
                 ok = False
                 if len(sigs) == 1:
@@ -137,6 +145,7 @@ def run_history(case):
                     out.append(Disc(exc_key(e, 'unexport.raises'), exc_detail(e)))
                     break
                 variant = model.pop(path)[0]
+                parked[path] = live.pop(path)
                 sigs = list(conn.sent)
                 ok = False
                 if len(sigs) == 1:
@@ -268,6 +277,13 @@ def classify(case):
                         labels.append('grandchild_without_parent')
     if any(op[0] == 'unexport' for op in case['ops']):
         labels.append('unexport')
+    gone = set()
+    for op in case['ops']:
+        p = case['pool'][op[1] % len(case['pool'])]
+        if op[0] == 'unexport':
+            gone.add(p)
+        elif p in gone:
+            labels.append('reexport_same_instance' if len(op) > 3 and op[3] else 'reexport_fresh_instance')
     return nt, sorted(set(labels))
 
 
@@ -293,6 +309,15 @@ def enum_histories(tier):
                     cur.discard(i)
             if ok:
                 yield {'pool': SMALL, 'ops': [[k, i, (i + idx) % 2] for idx, (k, i) in enumerate(seq)]}
+                seen, again = set(), False
+                for k, i in seq:
+                    if k == 'unexport':
+                        seen.add(i)
+                    elif i in seen:
+                        again = True
+                if again:
+                    # the same history with the unexported instance itself exported again (not a fresh object)
+                    yield {'pool': SMALL, 'ops': [[k, i, (i + idx) % 2, 1] for idx, (k, i) in enumerate(seq)]}
 
 
 @st.composite
@@ -300,7 +325,7 @@ def random_history(draw, tier):
     ops = []
     for _ in range(draw(st.integers(1, 30))):
         ops.append([draw(st.sampled_from(['export', 'export', 'unexport'])), draw(st.integers(0, len(POOL) - 1)),
-                    draw(st.integers(0, 1))])
+                    draw(st.integers(0, 1)), draw(st.integers(0, 1))])
     return {'pool': POOL, 'ops': ops}
 
 
